@@ -79,6 +79,43 @@ def describe(prog, t, depth=0):
     return k
 
 
+def coarse(prog, t, depth=0):
+    """Coarse, expression-independent descriptor used in site keys: access path of the operand (indices elided),
+    producer name for call results, type for locals."""
+    if not isinstance(t, tuple) or not t:
+        return str(t)
+    if depth > 4:
+        return "_"
+    k = t[0]
+    if k == "param":
+        return "arg%d" % t[2]
+    if k in ("obj", "loopvar"):
+        fn = prog.fns.get(t[1])
+        return "<%s>" % short_ty(fn.locals[t[2]]["ty"]) if fn else "<?>"
+    if k == "field":
+        return "%s.%s" % (coarse(prog, t[1], depth + 1), t[2])
+    if k in ("index", "idx"):
+        return "%s[]" % coarse(prog, t[1], depth + 1)
+    if k in ("vfield", "reader"):
+        return coarse(prog, t[1], depth)
+    if k == "cast":
+        return coarse(prog, t[3], depth)
+    if k == "len":
+        return "len(%s)" % coarse(prog, t[1], depth + 1)
+    if k == "call":
+        inner = coarse(prog, t[2][0], depth + 1) if (t[2] and depth < 1) else ""
+        return "%s(%s)" % (callee_name(t[1]), inner)
+    if k == "int":
+        return str(t[1]) if abs(t[1]) < 10 ** 12 else "N"
+    if k in ("bin", "phi", "un"):
+        return "expr"
+    if k == "agg":
+        return str(t[1]).split("::")[-1]
+    if k == "str":
+        return repr(t[1][:24])
+    return k
+
+
 def short_ty(ty):
     ty = ty.replace("&mut ", "&")
     base = ty.split("<")[0].split("::")[-1]
@@ -432,7 +469,7 @@ class NoPanic:
         cond = ev.op(t["cond"], (b, "term"))
         kind = t["akind"]
         ops = [ev.op(o, (b, "term")) for o in t["aops"]]
-        desc = ",".join(describe(P, o) for o in ops)
+        desc = ",".join(coarse(P, o) for o in ops)
         if cond[0] == "int" and bool(cond[1]) == t["expected"]:
             return self.rec(fn, b, kind, desc, "proved", "condition is constant", trivial=True)
         if kind.startswith("other:MisalignedPointerDereference") or kind.startswith("other:NullPointerDereference"):
@@ -476,7 +513,7 @@ class NoPanic:
             if isinstance(c, tuple) and c[0] == "bin" and c[1] == "Eq":
                 dv = c[2] if c[3] == ("int", 0) else c[3]
                 if B.lower(dv, b) >= 1 or B.upper(dv, b) <= -1:
-                    return self.rec(fn, b, kind, describe(P, dv), "proved", "divisor is non-zero")
+                    return self.rec(fn, b, kind, coarse(P, dv), "proved", "divisor is non-zero")
             return self.rec(fn, b, kind, desc, "open", "divisor may be zero")
         if kind == "bounds" and len(ops) == 2:
             ln, ix = ops
@@ -536,45 +573,45 @@ class NoPanic:
                     inner = inn
             v = args[1]
             if inner is not None and B.le(v, ("len", inner), 0, b):
-                return self.rec(fn, b, "set_position", describe(P, v), "proved", "new position <= length of the underlying buffer (keeps position <= len)")
-            return self.rec(fn, b, "set_position", describe(P, v), "open", "cursor position may be set beyond the buffer (invalidates position <= len)")
+                return self.rec(fn, b, "set_position", coarse(P, v), "proved", "new position <= length of the underlying buffer (keeps position <= len)")
+            return self.rec(fn, b, "set_position", coarse(P, v), "open", "cursor position may be set beyond the buffer (invalidates position <= len)")
         if name == "chunks" and len(args) == 2:
             n = intval(self.W, ev, args[1])
             lo = B.lower(args[1], b)
             if (n is not None and n > 0) or lo >= 1:
-                return self.rec(fn, b, "chunks", describe(P, args[1]), "proved", "chunk size is non-zero")
-            return self.rec(fn, b, "chunks", describe(P, args[1]), "open", "chunk size may be zero")
+                return self.rec(fn, b, "chunks", coarse(P, args[1]), "proved", "chunk size is non-zero")
+            return self.rec(fn, b, "chunks", coarse(P, args[1]), "open", "chunk size may be zero")
         if sp.endswith("time::Duration as core::ops::arith::Sub>::sub") or (f.get("trait") == "core::ops::arith::Sub" and "Duration" in (f.get("self_ty") or "")):
-            return self.rec(fn, b, "duration-sub", ",".join(describe(P, a) for a in args), "open", "Duration subtraction panics on underflow")
+            return self.rec(fn, b, "duration-sub", ",".join(coarse(P, a) for a in args), "open", "Duration subtraction panics on underflow")
         if f.get("trait") == "core::ops::arith::Add" and "Duration" in (f.get("self_ty") or ""):
-            return self.rec(fn, b, "duration-add", ",".join(describe(P, a) for a in args), "typed",
+            return self.rec(fn, b, "duration-add", ",".join(coarse(P, a) for a in args), "typed",
                             "Duration addition overflows only beyond 2^64 seconds (operands are a configured interval and < 256 ms)")
         if sp.endswith("Bernoulli::from_ratio"):
             n, d = args
             if B.upper(n, b) <= B.lower(d, b) and B.lower(d, b) >= 1:
-                return self.rec(fn, b, "from_ratio", describe(P, n), "proved", "numerator <= denominator")
-            return self.rec(fn, b, "from_ratio", describe(P, n), "open", "Bernoulli::from_ratio panics when numerator > denominator")
+                return self.rec(fn, b, "from_ratio", coarse(P, n), "proved", "numerator <= denominator")
+            return self.rec(fn, b, "from_ratio", coarse(P, n), "open", "Bernoulli::from_ratio panics when numerator > denominator")
         if sp.endswith("seq::index::sample") and len(args) == 3:
             if B.le(args[2], args[1], 0, b):
-                return self.rec(fn, b, "index-sample", describe(P, args[2]), "proved", "amount <= length")
-            return self.rec(fn, b, "index-sample", describe(P, args[2]), "open", "index::sample panics when amount > length")
+                return self.rec(fn, b, "index-sample", coarse(P, args[2]), "proved", "amount <= length")
+            return self.rec(fn, b, "index-sample", coarse(P, args[2]), "open", "index::sample panics when amount > length")
         if name == "with_capacity" and (sp.startswith("alloc::vec::Vec") or sp.startswith("alloc::string::String")) and args:
             u = B.upper(args[0], b)
             if u <= ISIZE_MAX // 64:
-                return self.rec(fn, b, "with_capacity", describe(P, args[0]), "proved", "capacity <= %s" % u, trivial=(args[0][0] == "int"))
-            return self.rec(fn, b, "with_capacity", describe(P, args[0]), "open", "capacity is not bounded")
+                return self.rec(fn, b, "with_capacity", coarse(P, args[0]), "proved", "capacity <= %s" % u, trivial=(args[0][0] == "int"))
+            return self.rec(fn, b, "with_capacity", coarse(P, args[0]), "open", "capacity is not bounded")
         if name == "from_elem" and len(args) == 2:
             u = B.upper(args[1], b)
             n = intval(self.W, ev, args[1])
             rr = int_range(self.W, ev, args[1])
             if u <= ISIZE_MAX // 64 or (n is not None and n <= 4096) or (rr is not None and rr[1] <= 4096):
-                return self.rec(fn, b, "vec-alloc", describe(P, args[1]), "proved", "length bounded")
-            return self.rec(fn, b, "vec-alloc", describe(P, args[1]), "open", "vec![x; n] with unbounded n")
+                return self.rec(fn, b, "vec-alloc", coarse(P, args[1]), "proved", "length bounded")
+            return self.rec(fn, b, "vec-alloc", coarse(P, args[1]), "open", "vec![x; n] with unbounded n")
         if name == "repeat" and sp.startswith("alloc::str"):
             u = B.upper(args[1], b)
             if u <= 2 ** 32:
-                return self.rec(fn, b, "str-repeat", describe(P, args[1]), "proved", "count <= %s" % u)
-            return self.rec(fn, b, "str-repeat", describe(P, args[1]), "open", "repeat count unbounded")
+                return self.rec(fn, b, "str-repeat", coarse(P, args[1]), "proved", "count <= %s" % u)
+            return self.rec(fn, b, "str-repeat", coarse(P, args[1]), "open", "repeat count unbounded")
         if name in ("copy_from_slice", "split_at", "split_at_mut", "swap", "remove", "insert", "drain", "truncate_exact", "borrow_mut", "borrow") and not sp.startswith("std::collections"):
             if name in ("insert",) and "hash" in sp:
                 return
@@ -599,7 +636,7 @@ class NoPanic:
         W = self.W
         x = args[0]
         xs = values.strip_payload(x)
-        desc = describe(P, xs)
+        desc = coarse(P, xs)
         rels = flow.rel_facts_at(B.IN, b)
         is_opt = "Option" in t["fn"].get("path", "")
         good_pred = "is_some" if is_opt else "is_ok"
@@ -820,7 +857,7 @@ class NoPanic:
             # facts about the 2-tuple form exist only for places that cannot change; for mutable containers the
             # query then rests on type-level intervals and checked container invariants alone
             ln = ("len", base)
-        desc = "%s,%s" % (describe(P, base), describe(P, idx))
+        desc = coarse(P, base)
         if idx[0] == "agg" and "ops::range::" in str(idx[1]) and is_call(base) and callee_name(base[1]) in ("finish", "as_ref"):
             bl = bytelen(self.W, ev, base)
             lab = str(idx[1]).split("::")[-1]
